@@ -26,6 +26,39 @@ CLAIMS = {
  "C20": ("reader->writer codec tables, range closure, exhaustive flag bytes",
          "every wire position is bound invertibly or constant, decoded value ranges fit the writer positions, raw information (unknown option, flag bits, protocol numbers, raw indexes, unreferenced options) is re-emitted raw, SOME/IP positions all retained with recomputed length, configuration strings split/join inverse on representative bodies",
          "struct inverse law; ASCII codec preserves length", "4 C20"),
+ "C05": ("ATOMIC(store, notification) typestate + who-may-notify + deferral-stamp ordering over the resolved call graph",
+         "every mutation of found_services.store invokes its notification in the same synchronous step and nothing else invokes it (so listener history = presence history for every interleaving); (un)watch catch-up is synchronous; reboot handling precedes the offers of the same message by stamp order (call_soon depth, program order) - decided structurally, not by sampling schedules",
+         "asyncio ready queue is FIFO; listeners do not re-enter the discovery; one listener under two overlapping filters is not decided", "4 C05"),
+ "C06": ("ATOMIC typestate for the subscription store + reject-before-record path facts + who-may-remove call graph + deferral-stamp ordering",
+         "store mutation and client_(un)subscribed are one synchronous step, a rejected subscription is never recorded, removals are reachable only from TTL expiry / StopSubscribe / reboot / service stop, reboot handling precedes the Subscribe entries of the same message, identity excludes TTL and options",
+         "asyncio ready queue is FIFO; listeners reject only with NakSubscription", "4 C06"),
+ "C09": ("TimedStore typestate: cancel-on-removal pairing, arming, exactly-once expiry, atomic report",
+         "all paths of every store-mutating method: each removed/replaced value has its timer cancelled, call_later is armed with the unscaled TTL / expiry routine / same key and stored, never for 0xFFFFFF, expiry removes then reports once iff present, report is synchronous with the removal; elapsed time is not decided",
+         "call_later fires once, not early, unless cancelled (asyncio contract)", "4 C09"),
+ "C10": ("coroutine path enumeration with cancellation at every await + typestate + guarded-call rules",
+         "offer-task phase sequence and delays (evaluated with distinct primes per timing constant) on every path with CancelledError injected at each await, StopOffer count per path and configuration, running/may-answer typestate, deferred offers re-check the running state, every ServiceInstance.stop call is guarded, helper argument class agreement (one known finding, pinned by the test-suite)",
+         "Task.cancel raises CancelledError at the current await; sleep/uniform honour their arguments; real delays not decided", "4 C10"),
+ "C11": ("path-effect summaries of both handle_subscribe functions + echo field-table composition",
+         "per path: return value and multiset of queued answers (Ack after recording, Nack on listener rejection, none for StopSubscribe / no match), exactly one announcer Nack iff nobody took the entry, Ack/Nack echo ids/eventgroup/counter (evaluated on boundary values), multicast Subscribes never dispatched",
+         "listeners reject only by NakSubscription; at most one instance matches an entry", "4 C11"),
+ "C12": ("path enumeration of the find handler: matched instances vs scheduled answers, channel to delay mapping",
+         "gate on the may-answer flag then exactly Service.matches_find, one scheduling edge per matching instance to the requester's address, call_later(uniform(window)) for multicast and call_soon for unicast requests, the answer is the own offer with ANNOUNCE_TTL and re-checks the running state",
+         "uniform() stays in its window and timers fire on time (not decided)", "4 C12"),
+ "C13": ("coroutine freshness rule (list built after the last await) + round/delay sequence",
+         "every transmitted list is computed after the most recent await as the unfound watched services mapped through create_find_entry(FIND_TTL), initial delay window, 2**i*base repetition delays, rounds bounded by REPETITIONS_MAX, an empty round ends the task, multicast destination",
+         "no other callback runs between two awaits; sleep honours its argument", "4 C13"),
+ "C14": ("uniform deferral depth of transmissions + requested-set who-may-write + entry field tables",
+         "subscribe / stop-subscribe / stop defer their transmissions by the same number of loop iterations (so wire order = call order), StopSubscribe only after a successful removal, no Subscribe while not alive, refresh rounds use the current set without an await in between and sleep the refresh interval, Subscribe entries carry ids/TTL/one endpoint option and go to the stored server",
+         "asyncio ready queue is FIFO; getnameinfo returns the numeric host/port", "4 C14"),
+ "C15": ("SendCollector typestate (open/done) + key agreement + who-may-call",
+         "append only while open and only from queue_send, done set before the flush of the same list, one timer per collector armed at construction with the collection timeout, collector keyed and bound to the same remote, nobody cancels, zero timeout bypass sends one entry immediately, no announcer/instance transmission bypasses queue_send",
+         "call_later fires once after the timeout; list.append keeps order", "4 C15"),
+ "C16": ("exhaustive decision table over 384 input classes on the extracted path formulas + reply field tables",
+         "each class of (service, interface version, method known, message type, return code, handler outcome, channel) selects one path; number, destination and fields of the reply (a field replacement over the request, so ids echo for all values) are compared with the specification table",
+         "dataclasses.replace copies unnamed fields; handlers reject only by MalformedMessageError", "4 C16"),
+ "C17": ("constructor field table of the notification + subscriber-set discipline + refusal paths",
+         "notification header fields (method id evaluated on boundary event ids), one datagram per destination with all events, per-destination session id, set/has_clients invariant in subscribe/unsubscribe, one initial notification for the new endpoint, rounds read the set when they start, every failure in client_subscribed refuses; membership during a suspended round is not decided",
+         "asyncio.Event / create_task semantics", "4 C17"),
 }
 ENGINES = [{"name": "vstatic", "path": "vstatic/", "serves_properties": sorted(CLAIMS),
             "kind_free_text": "stdlib-ast static analyser: program facts, light type inference and call resolution, bounded path enumeration with inlining (terms, no solver), layout/codec tables, abstract evaluation of extracted formulas at representative points"}]
